@@ -57,7 +57,63 @@ func (e *fnEnc) call(v ssa.Value, c *ssa.CallCommon, instr ssa.Instruction) {
 	e.countHit(c, instr)
 	e.siteAsserts(v, c, instr, true)
 	e.call0(v, c, instr)
+	e.recordResult(v, c, instr)
 	e.siteAsserts(v, c, instr, false)
+}
+
+// resKey is the ghost cell holding the value the call site last returned (lastresult("name#k")).
+func resKey(site, sort string) HeapKey { return HeapKey{Name: "RES!" + mangle(site), Sort: sort} }
+
+// recordResult stores the (first) result of a call whose site the contract names in lastresult("name#k").
+func (e *fnEnc) recordResult(v ssa.Value, c *ssa.CallCommon, instr ssa.Instruction) {
+	if !e.top || e.contract == nil || len(e.contract.ResSites) == 0 || v == nil {
+		return
+	}
+	res := c.Signature().Results()
+	if res.Len() == 0 {
+		return
+	}
+	for _, n := range e.callNames(c) {
+		site := fmt.Sprintf("%s#%d", n, e.siteOrdinal(instr, n))
+		if !e.contract.ResSites[site] {
+			continue
+		}
+		term := ""
+		if ts, ok := e.tuples[v]; ok {
+			term = ts[0]
+		} else {
+			term = e.term(v)
+		}
+		e.setHeap(resKey(site, e.S().SortOf(res.At(0).Type())), term)
+		if e.resTypes == nil {
+			e.resTypes = map[string]types.Type{}
+		}
+		e.resTypes[site] = res.At(0).Type()
+	}
+}
+
+// resultTypeOfSite finds the static result type of call site "name#k" of the function (for lastresult in clauses that
+// are translated before the call has been encoded).
+func (e *fnEnc) resultTypeOfSite(site string) types.Type {
+	if t, ok := e.resTypes[site]; ok {
+		return t
+	}
+	for _, b := range e.fn.Blocks {
+		for _, in := range b.Instrs {
+			ci, ok := in.(ssa.CallInstruction)
+			if !ok {
+				continue
+			}
+			for _, n := range e.callNames(ci.Common()) {
+				if fmt.Sprintf("%s#%d", n, e.siteOrdinal(in, n)) == site {
+					if res := ci.Common().Signature().Results(); res.Len() > 0 {
+						return res.At(0).Type()
+					}
+				}
+			}
+		}
+	}
+	return nil
 }
 
 // siteAsserts checks `at call NAME#k assert` clauses right after the matching call.
